@@ -97,6 +97,10 @@ structure S where
   /-- a handler dropped the last user reference while an emitter holds one: destruction is due when the
       outermost emission ends -/
   pendingDestroy : Bool := false
+  /-- the handlers' own reference has been dropped (they drop it once) -/
+  dropped : Bool := false
+  /-- the owner has been destroyed: handlers take no further action on it -/
+  gone : Bool := false
   deriving Repr
 
 def S.invOf (s : S) (h : Nat) : Nat := (s.inv.lookup h).getD 0
@@ -170,12 +174,12 @@ def closeCtx (s : S) : Except String S :=
       if s.pendingDestroy && !(rest.any Frame.isOcc) then
         match owedAtDestroy s with
         | k :: _ => .error s!"destroy_notifies: slot {k} was owed a destroy notification"
-        | [] => .ok { s with stack := rest, live := [], pendingDestroy := false }
+        | [] => .ok { s with stack := rest, live := [], pendingDestroy := false, gone := true }
       else .ok { s with stack := rest }
   | .unb (some k) true false :: _ => .error s!"unbind_notify_once: slot {k} asked for an unbind notification and got none"
   | .unb _ _ _ :: rest => .ok { s with stack := rest }
   | .des (k :: _) :: _ => .error s!"destroy_notifies: slot {k} was owed a destroy notification"
-  | .des [] :: rest => .ok { s with stack := rest, live := [] }
+  | .des [] :: rest => .ok { s with stack := rest, live := [], gone := true }
   | .bindw .. :: _ => .error "bind returned no identifier"
   | .nop :: rest => .ok { s with stack := rest }
   | .inv .. :: _ => .error "malformed log: handler still running at the end of its context"
@@ -248,7 +252,7 @@ def stepTok (own : Owner) (beh : Behaviour) (s : S) (t : Tok) : Except String S 
   | .leave r =>
     match s.stack with
     | .inv slot _ _ _ acts next ret :: rest =>
-      if next ≠ acts.length then .error "malformed log: handler returned before its actions were done"
+      if next ≠ acts.length && !s.gone then .error "malformed log: handler returned before its actions were done"
       else if r ≠ ret then .error s!"malformed log: handler of slot {slot} returned {r}"
       else match rest with
         | .occ ev wf pending ran _ :: rest' =>
@@ -271,8 +275,10 @@ def stepTok (own : Owner) (beh : Behaviour) (s : S) (t : Tok) : Except String S 
           | .destroy =>
             -- inside an emission of an owner whose emitters hold a reference the destruction waits for the end of
             -- the outermost emission; otherwise it happens here and now
-            if own.holdsRef && s.stack.any Frame.isOcc then .ok { s with pendingDestroy := true, stack := .nop :: s.stack }
-            else .ok (beginDestroy s)
+            if s.dropped then .ok { s with stack := .nop :: s.stack }
+            else if own.holdsRef && s.stack.any Frame.isOcc then
+              .ok { s with dropped := true, pendingDestroy := true, stack := .nop :: s.stack }
+            else .ok (beginDestroy { s with dropped := true })
     | _ => .error "malformed log: action outside a handler"
   | .aend => closeCtx s
   | .ident id =>
